@@ -57,6 +57,9 @@ func ufDecls() string {
 	sb.WriteString("(declare-fun ufpdiv32 ((_ FloatingPoint 8 24) (_ FloatingPoint 8 24)) (_ FloatingPoint 8 24))\n")
 	sb.WriteString("(declare-fun ufpmul64 ((_ FloatingPoint 11 53) (_ FloatingPoint 11 53)) (_ FloatingPoint 11 53))\n")
 	sb.WriteString("(declare-fun ufpdiv64 ((_ FloatingPoint 11 53) (_ FloatingPoint 11 53)) (_ FloatingPoint 11 53))\n")
+	sb.WriteString("(declare-fun mh64 ((_ BitVec 64) (_ BitVec 64)) (_ BitVec 64))\n")
+	sb.WriteString("(declare-fun mh32 ((_ BitVec 32) (_ BitVec 64)) (_ BitVec 64))\n")
+	sb.WriteString("(declare-fun mhbytes ((Array (_ BitVec 64) (_ BitVec 8)) (_ BitVec 64) (_ BitVec 64) (_ BitVec 64)) (_ BitVec 64))\n")
 	sb.WriteString("(declare-fun streq ((Array (_ BitVec 64) (_ BitVec 8)) (_ BitVec 64) (_ BitVec 64) (_ BitVec 64) (_ BitVec 64)) Bool)\n")
 	return sb.String()
 }
